@@ -23,8 +23,10 @@ The abstract base class for all scattering objects
 '''
 
 from copy import copy, deepcopy
+from numbers import Real
 
 import numpy as np
+import xarray as xr
 
 from holopy.core.holopy_object import HoloPyObject
 from holopy.core.utils import ensure_array
@@ -227,17 +229,24 @@ class CenteredScatterer(Scatterer):
     def __init__(self, center=None):
         bad = center is not None and (np.isscalar(center) or len(center) != 3)
         if center is not None and not bad:
-            try:
-                # three numbers, not three lists of numbers
-                bad = np.shape(np.asarray(center, dtype=float)) != (3,)
-            except (TypeError, ValueError):
-                # priors or per-channel values are not checked further
-                pass
+            # three numbers, not three lists of numbers
+            bad = not all(_is_coordinate(c) for c in center)
         if bad:
             msg = ("center specified as {0}, "
                    "center should be specified as (x, y, z)".format(center))
             raise InvalidScatterer(self, msg)
         self.center = center
+
+
+def _is_coordinate(value):
+    # imported here: holopy.core.prior itself imports holopy.scattering
+    from holopy.core.prior import Prior
+    if isinstance(value, (Prior, dict, xr.DataArray)):
+        # priors or per-channel values are not checked further
+        return True
+    if isinstance(value, np.ndarray):
+        return value.ndim == 0 and value.dtype.kind in 'biuf'
+    return isinstance(value, Real)
 
 
 def find_bounds(indicator):
